@@ -69,7 +69,19 @@ func (st *Stats) note(e *Entry, p *Plan, out *RunOut) {
 			st.Ops++
 		}
 	}
-	if len(p.Pre) > 0 {
+	for _, f := range p.Pre {
+		if f.Kind == "OvSvc" {
+			st.Probes["runs-with-overridden-todo-placeholders"]++
+			break
+		}
+	}
+	nf := 0
+	for _, f := range p.Pre {
+		if f.Kind != "OvSvc" {
+			nf++
+		}
+	}
+	if nf > 0 {
 		st.Probes["runs-with-injected-faults"]++
 		for _, f := range p.Pre {
 			k := f.Kind
@@ -127,7 +139,11 @@ var checks = map[string]checkFn{"C05": CheckC05, "C20": CheckC20}
 var judges = map[string]func(e *Entry, p *Plan, out *RunOut) *Violation{"C05": judgeC05, "C20": judgeC20}
 
 func mkViolation(prop, sig, detail string, e *Entry, p *Plan, out *RunOut) *Violation {
-	v := &Violation{Property: prop, Sig: sig, Detail: detail, Config: e.Name, Cfg: e.Cfg, Plan: p, Engine: 2}
+	cfg := e.Cfg
+	if e.Orig != nil {
+		cfg = e.Orig
+	}
+	v := &Violation{Property: prop, Sig: sig, Detail: detail, Config: e.Name, Cfg: cfg, Plan: p, Engine: 2}
 	if out != nil && out.Sched != nil {
 		v.Trace = out.Sched.Trace
 		v.Detail += "\nhistory:\n" + historyString(out.Results)
@@ -147,7 +163,7 @@ func CheckC05(e *Entry, src *choice.Src, st *Stats) *Violation {
 		maxT = 1
 	}
 	p := genReaderPlan(src, e.Cfg, minT, maxT, 10, false)
-	p.Pre = genFaults(src, e.Cfg)
+	p.Pre = append(genOverrides(src, e.Cfg), genFaults(src, e.Cfg)...)
 	out := RunPlan(e, p)
 	if st != nil {
 		st.note(e, p, out)
@@ -165,6 +181,7 @@ func CheckC05(e *Entry, src *choice.Src, st *Stats) *Violation {
 }
 
 func judgeC05(e *Entry, p *Plan, out *RunOut) *Violation {
+	e = effectiveEntry(e, p)
 	if out.Sched.Outcome != "finished" {
 		return nil
 	}
@@ -331,7 +348,7 @@ func errClass(s string) string {
 // the race detector active under that schedule.
 func CheckC20(e *Entry, src *choice.Src, st *Stats) *Violation {
 	p := genReaderPlan(src, e.Cfg, 2, 8, 24, true)
-	p.Pre = genFaults(src, e.Cfg)
+	p.Pre = append(genOverrides(src, e.Cfg), genFaults(src, e.Cfg)...)
 	if src.Chance("multi-container", 1, 5) {
 		// several containers of the same generated type, constructed and used concurrently
 		p.Multi = true
@@ -354,6 +371,7 @@ func CheckC20(e *Entry, src *choice.Src, st *Stats) *Violation {
 }
 
 func judgeC20(e *Entry, p *Plan, out *RunOut) *Violation {
+	e = effectiveEntry(e, p)
 	// (a) data races, reported by the race detector under the simulated schedule
 	if out.RaceText != "" {
 		return mkViolation("C20", "data-race:"+raceSig(out.RaceText), "the race detector reported under this schedule:\n"+firstReport(out.RaceText), e, p, out)
